@@ -958,6 +958,41 @@ fn directed(t: &mut Trace, rng: &mut Rng) {
     s.remove_topic(t, 0, 7);
     s.verify_op(t, 12); // nothing required: the identity contract is never asked
 
+    // (1y) wallet recovery: the replaced account has NO registered identity any more; only the replacing
+    // account is verified through the identity's claims (also along a chain of recoveries)
+    {
+        t.seq("directed recovered account is not verified");
+        let mut s = Sim::new();
+        setup_basic(&mut s, t);
+        s.add_topic(t, 0, 1);
+        s.add_issuer(t, 0, 4, &[1]);
+        let sch = s.keys[0].scheme();
+        s.allow_key(t, 4, 1, sch, 0, 1);
+        let c0 = s.good_claim(4, 8, 1, 1, TS0 + 1000, b"kyc", rng);
+        s.add_claim(t, 8, &c0);
+        s.verify_op(t, 11);
+        s.verify_op(t, 13);
+        // the claim removed and issued again: it counts again
+        s.remove_claim(t, 8, 4, 1);
+        s.verify_op(t, 11);
+        s.add_claim(t, 8, &c0);
+        s.verify_op(t, 11);
+        s.remove_claim(t, 8, 4, 1);
+        s.remove_claim(t, 8, 4, 1); // nothing left to remove
+        let c1 = s.good_claim(4, 8, 1, 1, TS0 + 2000, b"kyc2", rng);
+        s.add_claim(t, 8, &c1);
+        s.verify_op(t, 11);
+        s.irs_recover(t, 11, 13); // account 11 (identity 8) replaced by account 13
+        s.verify_op(t, 11); // replaced: no identity
+        s.verify_op(t, 13);
+        s.irs_recover(t, 13, 11); // 11 was itself recovered away: refused
+        s.irs_remove(t, 12);
+        s.irs_recover(t, 13, 12); // a chain 11 -> 13 -> 12
+        s.verify_op(t, 11);
+        s.verify_op(t, 13);
+        s.verify_op(t, 12);
+    }
+
     // (1z) revocation is per (identity, topic, data): byte-identical data under two topics and two
     // identities of one issuer, revoked and un-revoked independently of each other
     {
